@@ -24,13 +24,13 @@ TEXT = {
          "engine S: exhaustive enumeration of lengths x shapes"),
  "C09": ("All 640 single-bit flips x 5 sealings, byte rewrites, writer-version/magic rewrites and byte-order twins of headers produced by encode (2-bit flips in thorough), each shown to the header predicate, metadata query, decode (mutant first, last, and as surplus entry n+1 and 2n+1) and reconstruct (first, last) from a read-only page; verdicts compared with a reference predicate on the raw bytes.",
          "engine F: exhaustive enumeration of header mutations"),
- "C10": ("Stored checksums of every encoded and reconstructed fragment under five settings of the legacy switch; every payload bit flip (short payloads) and re-stamped checksum reported by the metadata query and rejected by validation - under every reader setting of the switch, for the opposite-endian twin, and by an instance created with checksum type NONE; fragments rebuilt under each other value of the switch and fragments of pre-1.2.0 writers included; the historical CRC bit-exactly on all buffers of <=2 bytes, all single-non-zero 59-byte buffers and pattern buffers.",
+ "C10": ("Stored checksums (payload, and the header seal for every checksum type) of every encoded and reconstructed fragment under five settings of the legacy switch; every payload bit flip (short payloads) and re-stamped checksum reported by the metadata query and rejected by validation - under every reader setting of the switch, for the opposite-endian twin, and by an instance created with checksum type NONE; fragments rebuilt under each other value of the switch and fragments of pre-1.2.0 writers included; the historical CRC bit-exactly on all buffers of <=2 bytes, all single-non-zero 59-byte buffers and pattern buffers.",
          "engine F: exhaustive enumeration of payload mutations and short CRC inputs"),
  "C11": ("The byte-order twin of every base fragment (intact, payload-damaged, header-damaged raw and resealed, original lengths needing all 64 bits, unsealed headers of pre-1.2.0 writers): all metadata fields, header verdicts and mismatch verdicts must equal the native fragment's; the caller's output struct is poisoned before every query.",
          "engine F: exhaustive enumeration of twins x mutations"),
- "C12": ("100 | 484 instance x foreign-stripe pairs x resealed field rewrites (index, all 256 backend ids, versions, byte order, payload bits) in-place stale edits of a just-validated buffer, opposite-endian fragments of old writers and a stored mismatch flag over an intact payload against the iff of the statement; stripe verification over all lists of <=3 fragments with one bad one at every position; every fresh fragment of every shape validates.",
+ "C12": ("100 | 484 instance x foreign-stripe pairs x resealed field rewrites (index and backend version incl. every single-bit neighbour, all 256 backend ids, 16 library versions, byte order, payload bits) in-place stale edits of a just-validated buffer, opposite-endian fragments of old writers and a stored mismatch flag over an intact payload against the iff of the statement; stripe verification over all lists of <=3 fragments with one bad one at every position; every fresh fragment of every shape validates.",
          "engine F: exhaustive enumeration of instance x fragment x field-edit tuples"),
- "C13": ("Full cross products of {valid, NULL, boundary, out-of-range} per argument for every entry point against four live instances and dead descriptors (a fragment length below 80 is given with buffers that really are that short, ending at a guard page), and ~215k | 1.0M configurations: backend id x k x m (every value around the accepted region plus extreme values such as INT_MAX, INT_MIN, 2^30) x hd x word size, each accepted one driven through a full cycle; ledger compared around every call.",
+ "C13": ("Full cross products of {valid, NULL, boundary, out-of-range} per argument for every entry point against four live instances and dead descriptors (a fragment length below 80 is given with buffers that really are that short, ending at a guard page; a fragment count <= 0 also with a zero-length list and with dangling pointers), and ~215k | 1.0M configurations: backend id x k x m (every value around the accepted region plus extreme values such as INT_MAX, INT_MIN, 2^30) x hd x word size, each accepted one driven through a full cycle; ledger compared around every call.",
          "engine A: exhaustive enumeration of argument tuples and configurations"),
  "C14": ("All 518 | 3,110 abstract registry states with <=3|4 live instances over six configurations incl. two flat-XOR shapes (with and without the descriptor counter preset to wrap) x every operation (6 creates, 5 failing creates of three kinds, destroy, use incl. the availability query, 15 error exits), each transition a real API call in a forked child followed by a full teardown, with a set model, round trips of every live instance, the loaded-library invariant and a differential observation oracle; plus all operation sequences over 10 letters to depth 5|6 (and over 6 letters to depth 8) unmerged, and all 522k | 10M create/destroy/counter-preset sequences to depth 9|11 around the descriptor wrap.",
          "engine H: explicit-state search, transitions are real API calls"),
@@ -38,13 +38,13 @@ TEXT = {
          "engines S+H+T: exhaustive enumeration with guard pages, state search, schedule enumeration"),
  "C16": ("Exact ledger of the library's allocations (link-time wrap) plus AddressSanitizer over every abstract registry state x every operation including 15 error exits per instance (incl. rejected calls handed stale output variables, bad headers met after scratch buffers were allocated, a caller-damaged magic before the cleanup call), over all operation sequences to depth 4|6 (8 on six letters), and over every erasure set up to one beyond tolerance of all 1,526 shapes with the ledger compared around each single decode+cleanup+reconstruct case, and around every fragments_needed request of every flat-XOR table.",
          "engine H + S: explicit-state search with an exact allocation ledger"),
- "C17": ("Every backend call of a scripted workload made to fail: 0 faults, every single position, every pair, every triple (k+m<=6|16), for every (k,m) with k+m<=10|16 of the three matrix back ends plus flat-XOR and null representatives, 11 configurations whose init the back ends refuse themselves, and every flat-XOR erasure set of hd and hd+1 fragments (the decoder's own failures); the failed call must return <0 with the ledger untouched and later outputs must equal the fault-free run.",
+ "C17": ("Every backend call of a scripted workload made to fail: 0 faults, every single position, every pair, every triple (k+m<=6|16), for every (k,m) with k+m<=10|16 of the three matrix back ends plus flat-XOR and null representatives, 11 configurations whose init the back ends refuse themselves, every flat-XOR erasure set of hd and hd+1 fragments (the decoder's own failures), and matrix-inversion failures inside the ISA-L adapters (injected, and on singular survivor sets); the failed call must return <0 with the ledger untouched and later outputs must equal the fault-free run.",
          "engine X: deviation-bounded exhaustive fault enumeration"),
- "C18": ("All interleavings of 2-3 real threads at hooked points up to 2|3 preemptions (1|2 under TSan), 7|10 life-cycle drivers plus 8 data-plane drivers (threads using pre-created instances and one shared pre-encoded stripe, read locks only, so ThreadSanitizer sees their calls as unordered), each schedule executed on the real library under AddressSanitizer and under ThreadSanitizer, results compared with the sequential run.",
+ "C18": ("All interleavings of 2-3 real threads at hooked points and at every pthread rwlock/mutex operation the library performs (interposed, so the library's own lock mapping is what runs; try-locks modelled) up to 2|3 preemptions (1|2 under TSan), 7|10 life-cycle drivers plus 8 data-plane drivers (threads using pre-created instances and one shared pre-encoded stripe, read locks only, so ThreadSanitizer sees their calls as unordered), each schedule executed on the real library under AddressSanitizer and under ThreadSanitizer, results compared with the sequential run.",
          "engine T: stateless preemption-bounded schedule enumeration under a serialising scheduler"),
  "C19": ("Both adapters over all 496 shapes through a clean-room plug-in: round trip, reconstruct fidelity, no-silent-corruption over all subsets (n<=9|12), fragments_needed, every position (and pair) of an injected matrix-inversion failure on 8 shapes, and every singular survivor set found by a reference search over ALL erasure sets with |E|<=m for n<=16|20 (1,644 sets in quick).",
          "engine S with reference plug-in: exhaustive enumeration + inversion-fault enumeration"),
- "C20": ("Nine CRC32 configurations x every survivor set x every damaged subset of size <=2 (all sizes for n<=6 in thorough) x fifteen damage kinds (incl. foreign fragments with consistently stamped other payloads and opposite-endian twins), a damaged copy listed before an intact one, plus every single payload bit of every fragment as encoded and as rebuilt by reconstruct, forced checks on: result must be the original iff the valid fragments suffice, an error when they cannot, never other bytes.",
+ "C20": ("Nine CRC32 configurations x every survivor set x every damaged subset of size <=2 (all sizes for n<=6 in thorough) x seventeen damage kinds (incl. foreign fragments with consistently stamped other payloads and opposite-endian twins), a damaged copy listed before an intact one, plus every single payload bit of every fragment as encoded and as rebuilt by reconstruct, forced checks on: result must be the original iff the valid fragments suffice, an error when they cannot, never other bytes.",
          "engine F: exhaustive enumeration of survivor x damaged subsets"),
 }
 NOTE = ("Trusted base: gcc, AddressSanitizer/ThreadSanitizer, the reference models in /verif/ref (self-tested by setup: zlib cross-check, golden CRC vectors, field axioms, table distance), "
@@ -88,7 +88,7 @@ def main():
             {"name": "T", "path": "harness/engine_t.c", "serves_properties": ["C18", "C15"], "kind_free_text": "preemption-bounded schedule explorer under a serialising scheduler, ASan and TSan monitors"},
         ],
         "checks": checks,
-        "notes": "Known findings: KNOWN_FINDINGS.txt (all 11 defects found so far were repaired by fix: commits in /repo; no open findings). Seeded breaking changes (179 kept, 176 caught, 3 outside every listed property) and which check catches each: seeded/RESULTS.md and DESIGN.md section 8. harness/engine_m.c is an unregistered probe (allocation failure is outside every property's quantifier, DESIGN.md section 9).",
+        "notes": "Known findings: KNOWN_FINDINGS.txt (all 11 defects found so far were repaired by fix: commits in /repo; no open findings). Seeded breaking changes (197 kept, 194 caught, 3 outside every listed property) and which check catches each: seeded/RESULTS.md and DESIGN.md section 8. harness/engine_m.c is an unregistered probe (allocation failure is outside every property's quantifier, DESIGN.md section 9).",
         "not_applicable": na,
     }
     json.dump(man, open(os.path.join(VERIF, "MANIFEST.json"), "w"), indent=1)
